@@ -58,12 +58,21 @@ func (c *Compactor) majorCompaction(levels *LevelList, sar SAR) (*ChangeSet, err
 
 		// Keep adding tables and recalculating SAR until we've met the Space
 		// Amplification goal.
+		goalMet := false
 		for _, candidate := range tableIter {
 			sar = sar.WithCompactedBytes(int64(candidate.Size()))
 			tablesToMerge = append(tablesToMerge, candidate)
 			if sar.Percentage() < c.MaxSizeAmplificationPercent {
+				goalMet = true
 				break
 			}
+		}
+
+		// Tables of newer levels may only move into the base level when all the
+		// older data beneath them moves too, otherwise a key's newer version
+		// would end up below an older one that stayed behind in this level.
+		if goalMet {
+			break
 		}
 	}
 
